@@ -33,8 +33,13 @@ func names(seq []ls.SMsg) []string {
 }
 
 // play sends wire in chunks with the given per-chunk sleeps (ms) and judges.
+var playCount int
+
 func play(seq []ls.SMsg, wire []ls.WireByte, chunks []int, sleeps []int32, space string) {
-	l := ls.NewLoop(ls.All(buf))
+	o := ls.All(buf)
+	playCount++
+	o.Reversed = playCount%2 == 1 // the order in which the options are passed must not matter
+	l := ls.NewLoop(o)
 	if l.Err != nil {
 		ctx.Guard(false, "loopback: %v", l.Err)
 		return
@@ -59,6 +64,10 @@ func play(seq []ls.SMsg, wire []ls.WireByte, chunks []int, sleeps []int32, space
 		pos += n
 	}
 	want := ls.Expected(seq, wire, chunks, stamps)
+	if was, now, yes := l.Overwritten(); yes {
+		report("sent:retained-message-overwritten:"+space, seq, raw, chunks, sleeps, fmt.Sprintf("a message handed to the listener (% X) changed afterwards to % X", was, now))
+		return
+	}
 	if d := ls.Match(l.Got, want); d != "" {
 		feat := ""
 		// feature: kind of the first message that is wrong
@@ -246,7 +255,7 @@ func senderSpace(first int) {
 
 // product: sender-legal streams to the fixpoint.
 func product() {
-	b := &engine.BFS{NumOps: len(ls.Classes), MaxStates: 3_000_000}
+	b := &engine.BFS{NumOps: len(ls.Classes), MaxStates: 200000, Stop: func() bool { return ctx.ViolationCount() > 0 }}
 	cfgOpts := ls.All(buf)
 	b.Run = func(path []uint16) (string, bool) {
 		snd := refmidi.NewSender(buf)
@@ -298,6 +307,25 @@ func reportStream(sig string, stream []byte, what string) {
 	}
 }
 
+// pauses: every pause length 0..6000 ms (and a few long ones) before a message:
+// the stamp is the accumulated whole-millisecond time.
+func pauses(part, parts int) {
+	seq := []ls.SMsg{alphabet[0], alphabet[2]}
+	wire := ls.Serialize(seq, 0)
+	var ps []int32
+	for p := int32(part); p <= 6000; p += int32(parts) {
+		ps = append(ps, p)
+	}
+	if part == 0 {
+		ps = append(ps, 59999, 60000, 60001, 3599999, 3600000, 3600001, 86400000, 1<<30)
+	}
+	for _, p := range ps {
+		play(seq, wire, []int{3, 2}, []int32{p, 1}, "pause-sweep")
+		play(seq, wire, []int{3, 2}, []int32{1, p}, "pause-sweep")
+		ctx.Add("pause_lengths", 1)
+	}
+}
+
 func main() {
 	ctx = engine.Start("C04", "model_checking")
 	if ctx.ReplayPath != "" {
@@ -308,6 +336,7 @@ func main() {
 	ctx.Assume("sender-legal streams: data only inside a message or under legal running status, sysex no longer than the buffer, no F4/F5/F9/FD, F7 only closing a sysex")
 	ctx.JobsW("product", 1, 4, func(int) { product() })
 	ctx.Jobs("sender", len(alphabet), func(j int) { senderSpace(j) })
+	ctx.Jobs("pauses", 8, func(j int) { pauses(j, 8) })
 	ctx.Set("traces_validated_against_impl", ctx.GetInt("transitions"))
 	ctx.Set("max_depth", ctx.GetInt("max:depth"))
 	ctx.Set("fixpoint_reached", ctx.GetInt("fixpoints_reached") == 1)
